@@ -112,7 +112,7 @@ func c06Compare(c c06Case, outs []c06Outcome, scheds [][]int) error {
 	for _, o := range outs {
 		anyErr = anyErr || o.Err != ""
 	}
-	relaxed := anyErr && excluded["no_join_on_error_paths"] && !c.Strict
+	relaxed := anyErr && excluded[c06Exclusion(c.Kind)] && !c.Strict
 	// The open finding (no join of the top-level lexer) lets a lexer run at
 	// most to its next hand-over after its parser has failed: there it finds
 	// the cancellation and stops. A run in which a cancelled lexer does hand a
@@ -182,6 +182,15 @@ func c06Compare(c c06Case, outs []c06Outcome, scheds [][]int) error {
 		}
 	}
 	return nil
+}
+
+// c06Exclusion names the known finding that narrows the oracle on error
+// paths: one for the parser, one for the arithmetic evaluator.
+func c06Exclusion(kind string) string {
+	if kind == "eval" {
+		return "no_join_on_error_paths_eval"
+	}
+	return "no_join_on_error_paths"
 }
 
 func firstErr(outs []c06Outcome) int {
@@ -459,7 +468,7 @@ func TestC06Race(t *testing.T) {
 			st.Eval(true, "race", src)
 		} else {
 			exprs := c06EvalExprs
-			if excluded["no_join_on_error_paths"] {
+			if excluded["no_join_on_error_paths_eval"] {
 				// while that finding is open, only expressions that evaluate
 				// without error (on error paths Eval reads fields the lexer
 				// goroutine may still write)
